@@ -65,7 +65,7 @@ def cases(shard, tier):
             yield ["arr", lens, pat, v, g]
         # narrow / unsigned element types with jumps that overflow the element type (differences, sums)
         for vk in ("i8", "u8", "f8"):
-            for g in ("basic", "red", "col"):
+            for g in ("basic", "red", "col") + (("ufunc",) if vk == "i8" else ()):
                 yield ["arr", lens, pat, v, g, vk]
         for g in ("basic", "red"):
             yield ["arr", lens, pat, v, g, "fbig"]
@@ -287,6 +287,12 @@ def check(case, acc):
                 _cmp(acc, f"{un}(float column,{side})", e, lambda: uf(mk(), fcv) if side == "R" else uf(fcv, mk()))
             e = [(uf(a, 2.5)).tolist() for a in arr]
             _cmp(acc, f"{un}(float scalar)", e, lambda: uf(mk(), 2.5))
+            # numpy scalars / 0-d arrays wider than the run values take part in the type promotion (100 + int8 data as int64 does not wrap)
+            for sname, sc in (("np.int64", np.int64(100)), ("0-d int64", np.array(100)), ("np.float64", np.float64(0.1)), ("np.int16", np.int16(100))):
+                for side in "LR":
+                    with np.errstate(all="ignore"):
+                        e = [(uf(a, sc) if side == "R" else uf(sc, a)).tolist() for a in arr]
+                    _cmp(acc, f"{un}({sname} scalar,{side})", e, lambda: uf(mk(), sc) if side == "R" else uf(sc, mk()))
         cv = np.arange(1, n + 1)[:, None]
         for un in UFS:
             uf = getattr(np, un)
@@ -306,6 +312,7 @@ def check(case, acc):
             if group == "colint":
                 for j in range(-mn, mn):
                     _cmp(acc, "rows,column-int", [r[j] for r in sel], lambda: mk()[rs, j])
+                    _cmp(acc, "rows,column-np.int64", [r[j] for r in sel], lambda: mk()[rs, np.int64(j)])
                     if isinstance(rs, slice) and rs == slice(None):
                         _cmp(acc, "[..., column-int]", [r[j] for r in sel], lambda: mk()[..., j])
                 continue
